@@ -8,7 +8,7 @@ export GOFLAGS=-mod=mod GOPROXY=off GOSUMDB=off GOTOOLCHAIN=local
 [ -x "$BIN" ] || "$HERE/check" build >/dev/null || exit 2
 T="$(mktemp -d)"; trap 'rm -rf "$T"' EXIT
 # private copies: the run takes a while and must not see a checker rebuilt (or tables regenerated) half-way
-cp "$BIN" "$T/lkcheck"; BIN="$T/lkcheck"; mkdir -p "$T/base"; cp "$HERE/known_findings.json" "$HERE/names.json" "$HERE/errors.json" "$HERE/guards.json" "$HERE/fields.json" "$HERE/properties.jsonl" "$T/base/"; HERE_TABLES="$T/base"
+cp "$BIN" "$T/lkcheck"; BIN="$T/lkcheck"; mkdir -p "$T/base"; cp "$HERE/known_findings.json" "$HERE/names.json" "$HERE/errors.json" "$HERE/guards.json" "$HERE/fields.json" "$HERE/defers.json" "$HERE/properties.jsonl" "$T/base/"; HERE_TABLES="$T/base"
 bad=0
 sel=("$@"); [ ${#sel[@]} -eq 0 ] && sel=($(ls "$HERE/benign"))
 for n in "${sel[@]}"; do
